@@ -4,6 +4,8 @@ CONSTANTS
   K1 = "regular"
   K2 = "hold"
   V = 4
+  Amts = {3, 2, 4, 5}
+  Tots = {3, 4, 5}
   InvDelta = 6
   RejectDelta = 4
   MaxHeight = 3
